@@ -242,6 +242,15 @@ def compare(W, o, st_cols, st_rows, pid=None):
         want = (AMP[ch - 1], GAIN[ch - 1], float(PNV[ch - 1]), R[ch - 1], PNS[ch - 1])
         if meta != want:
             bad.append(('meta', 'column %d (%s): metadata %r, file says %r' % (j, NAMES[ch - 1], meta, want)))
+        # the same by NAME (every object of a session gets asked by name, as user code does)
+        nm = NAMES[ch - 1]
+        try:
+            by_name = (o.amplification_type(nm), o.amplifier_gain(nm), o.detector_voltage(nm), o.resolution(nm), o.channel_labels(nm),
+                       [float(v) for v in o.range(nm)])
+        except Exception as e:  # noqa
+            by_name = 'raises %s' % type(e).__name__
+        if by_name != meta + ([float(v) for v in rng],):
+            bad.append(('meta', 'column %d: asked by name %r the metadata are %r, by position %r' % (j, nm, by_name, meta)))
     if bad:
         return bad
     if pid == 'C12' and len(st_rows) >= 1:
